@@ -391,6 +391,13 @@ impl<RW: QueueRW<T>, T> MultiQueue<RW, T> {
                         #[cfg(multiqueue2_verif)]
                         crate::verif_hooks::probe(crate::verif_hooks::p::DISCONNECT_SECOND_LOOK);
                         if rm_tag(read_cell.wraps.load(Acquire)) != wrap_valid_tag {
+                            // On a shared stream the position may be stale: a sibling took
+                            // this slot's value and the writer reused the slot before the
+                            // last sender left. Only a current position proves the end.
+                            if !is_single && reader.load_count(Relaxed) != wrap_valid_tag {
+                                ctail_attempt = ctail_attempt.reload();
+                                continue;
+                            }
                             return Err((ptr::null(), TryRecvError::Disconnected));
                         }
                     }
